@@ -1,4 +1,5 @@
 pub mod conn;
+pub mod pure;
 
 use crate::engine::*;
 
@@ -13,6 +14,11 @@ pub fn all() -> Vec<PropDef> {
     vec![
         conn::c01(),
         conn::c02(),
+        pure::c05(),
+        pure::c14(),
+        pure::c15(),
+        pure::c16(),
+        pure::c17(),
         PropDef {
             id: "C04",
             subs: conn::c04_conn_subs(),
